@@ -5,6 +5,7 @@ CONSTANTS
   RootSlots <- Slots12
   Realms = {1, 2}
   MaxOps = 4
+  MaxOps1 = 4
   MaxTx = 2
   OwnerFix = TRUE
   AttachGuard = TRUE
